@@ -49,7 +49,8 @@ def main():
     notes = json.load(open(os.path.join(src, 'notes.json')))
     patch = os.path.join(src, 'patch.diff')
     dem = os.path.join(src, 'demo.py')
-    vers = [v for v in notes.get('interpreters', ['3.10']) if v in INTERP] or ['3.10']
+    vers = ['.'.join(str(v).split('.')[:2]) for v in notes.get('interpreters', ['3.10'])]
+    vers = [v for v in vers if v in INTERP] or ['3.10']
     res = {'property': prop, 'summary': notes.get('summary'), 'needs': notes.get('needs'),
            'interpreters': vers, 'files_changed': notes.get('files_changed'), 'confirmed': {}}
     c = res['confirmed']
